@@ -6,20 +6,14 @@
 From OTV Require Import Lib.Tac Lib.Conc DequeModel DequeProofs.
 Local Open Scope Z_scope.
 
-(* good: no task is handed out twice (owner pop vs thief steal vs a second thief), only spawned tasks are handed out, and
-   when all threads have finished every spawned task was handed out exactly once or is still in [head, tail) *)
-Definition C_last_task := ([(1, 1); (2, 0)], [1%nat]).                                   (* owner and thief race for the only task *)
-Definition C_two_tasks := ([(1, 1); (1, 2); (2, 0); (2, 0)], [2%nat]).
-Definition C_reset_republish := ([(1, 1); (2, 0); (1, 2); (2, 0)], [2%nat]).             (* pool emptied, reset, published again *)
-Definition C_two_thieves := ([(1, 1); (1, 2); (2, 0)], [1%nat; 1%nat]).                  (* thieves contend for the pool lock *)
-Definition C_three_tasks := ([(1, 1); (1, 2); (1, 3); (2, 0); (2, 0); (2, 0)], [2%nat]).
+(* the configurations and the (one-minute) evaluation live in DequeProofs.v: deque_configs, deque_configs_explored *)
 
 Theorem deque_exactly_once_all_interleavings :
-  forall cfg, In cfg [C_last_task; C_two_tasks; C_reset_republish; C_two_thieves; C_three_tasks] ->
+  forall cfg, In cfg deque_configs ->
   forall c, reach dstep (dinit (fst cfg) (snd cfg)) c -> good (spawned_of (fst cfg)) c = true.
 Proof.
-  intros cfg Hin c. revert c.
-  destruct Hin as [<-|[<-|[<-|[<-|[<-|[]]]]]]; apply explore_sound with (fuel := 60000%nat); vm_compute; reflexivity.
+  intros cfg Hin. assert (H := deque_configs_explored). unfold deque_configs in *. rewrite forallb_forall in H.
+  specialize (H cfg Hin). intros c. apply explore_sound with (fuel := 60000%nat). exact H.
 Qed.
 Print Assumptions deque_exactly_once_all_interleavings.
 
